@@ -15,12 +15,13 @@ const (
 	gChanMsgs = "G:chan#msgs" // channel id -> number of messages sent
 	gRdPos    = "G:rd#pos"    // reader id -> bytes delivered so far
 	gAtomic   = "G:atomic64"  // pointer ref -> value
+	gKsPos    = "G:ks#pos"    // cipher.Stream id -> keystream bytes consumed
 )
 
 func (v *Verifier) ghostHeap(st *State, key string) *Term {
 	var s *Sort
 	switch key {
-	case gChanLen, gChanMsgs, gRdPos:
+	case gChanLen, gChanMsgs, gRdPos, gKsPos:
 		s = ArraySort(IntSort, IntSort)
 	case gChanData:
 		s = ArraySort(IntSort, ArraySort(IntSort, BVSort(8)))
